@@ -967,6 +967,25 @@ def counter_guard_fns(F):
     return out
 
 
+def balanced_counter_fields(F):
+    """Fields of Program that are depth counters (counter_guard_fns) and that every user returns as it found them: on every
+    path to a return of every function calling the guard, successful enters and leaves cancel out.  Such a field is 0
+    whenever no guarded evaluation is active, i.e. between host calls."""
+    out = {}
+    for g, (field, limit, leaves) in counter_guard_fns(F).items():
+        ok = True
+        n = 0
+        for body in F.bodies.values():
+            if not any(c.callee == g or c.callee in leaves for c in body.calls()):
+                continue
+            n += 1
+            if not _balanced(body, g, leaves, exact=True):
+                ok = False
+        if ok and n:
+            out[field] = "depth counter of %s: every successful enter is matched by one leave on every path of its %d users" % (g.split("::")[-1], n)
+    return out
+
+
 def _is_minus_one(ex, fld):
     """field.saturating_sub(1) / field - 1 / (field - 1 with overflow check).0"""
     ex = strip_expr(ex)
@@ -981,7 +1000,7 @@ def _is_minus_one(ex, fld):
     return False
 
 
-def _balanced(body, enter, leaves):
+def _balanced(body, enter, leaves, exact=False):
     from lib import on_ok_arm
     try:
         paths = body.paths(limit=20000)
@@ -989,6 +1008,8 @@ def _balanced(body, enter, leaves):
         return False
     for p in paths:
         bal = 0
+        if exact and body.term(p[-1])["k"] != "return":
+            continue
         for idx, b in enumerate(p):
             c = body.call_at(b)
             if c is None:
@@ -1002,6 +1023,8 @@ def _balanced(body, enter, leaves):
                 bal -= 1
                 if bal < 0:
                     return False
+        if exact and bal != 0:
+            return False
     return True
 
 
